@@ -13,21 +13,40 @@
 //! Engines in `c03/lines.rs` (texts no writer produced, through the real reader):
 //!   L1 every sequence of ≤ L lines over an 18-line (N=2) and a 10-line (N=3) alphabet, with and without the final
 //!      line break; L2 every comment cell of ≤ L characters over {backslash, n, x, ü}; L3 probes outside the
-//!      domain (no panic; outcomes recorded).
+//!      domain (no panic; outcomes recorded); L4 every sequence of ≤ L lines over a 12-line alphabet of odd values
+//!      (names that are tag letters of the format, names equal in both namespaces, the empty comment cell).
+//! Engines in `c03/extra.rs` (second extension pass, one per gap pattern of tools/PATTERNS.md; contents through the
+//! judge of S, texts through the judge of L):
+//!   F feature placement — a skeleton of three classes (the middle one with 3 fields, 3 methods × 2 parameters) in
+//!      which one feature (present / commented / named / named like the source) is switched per entry by every mask
+//!      of 15 bits, every entry with its own comment and names (what leaks to a neighbour is seen);
+//!   T long texts — each of 16 text slots (namespaces, names of every level in the first and last namespace, class
+//!      names in descriptors, comments of every level) filled with k1 ASCII characters + one character of 1/2/3/4
+//!      bytes + k2 ASCII characters: last at every length ≤ 140, first and second before the usual cut lengths; lines
+//!      around 8 KiB and 64 KiB; R the same texts in 24 refusing situations of the reader (the message quotes them);
+//!   O odd-but-legal values in pairs of siblings (tag letters, `$` at the end, blanks at the ends, backslashes,
+//!      `(`, `<init>`, equal target names, names equal to the source name, odd / equal namespace names, parameter
+//!      indices around every integer width); W levels with several hundred siblings;
+//!   E environment — `read` through scripted `Read`s (c20/io.rs: short serves, BufReaders, one boundary at every byte
+//!      offset, periodic boundaries, Interrupted, an I/O error after every prefix), `write` through scripted `Write`s
+//!      (partial accepts, Interrupted, exact slice; failing writers recorded only).
 //!
 //! Clause table (statement / quantifier → where decided, over which space)
 //!
 //! | clause | oracle (difference key) | space |
 //! |---|---|---|
 //! | read(write(M)) has the same namespaces | H `check_state` (1), S `judge` "read(write(M)) == M" (`roundtrip:namespaces`) | H all universes (ASCII namespaces, N=2,3,4); S1 namespaces with a non-ASCII name |
-//! | same classes / fields / methods / parameters (nothing lost or invented) | same (`roundtrip:<level>:missing/extra`), and the reference reader on the written text (`text:…`) | H, S1 (every subset of a 3-class/3-field/3-method/2-parameter universe), S3 |
-//! | same names per namespace | same (`roundtrip:<level>.names`) | H missing-name patterns × N; S1 every subset of non-source names missing (N=2,3), 3–4 patterns (N=4), on classes, members, parameters independently |
+//! | same classes / fields / methods / parameters (nothing lost or invented) | same (`roundtrip:<level>:missing/extra`), and the reference reader on the written text (`text:…`) | H, S1 (every subset of a 3-class/3-field/3-method/2-parameter universe), S3; F every subset of the skeleton's entries present; O parameter indices in pairs around 2^8, 2^15, 2^16, 2^31, 2^32, 2^53, 2^63, 2^64; W 300 (thorough 1000) fields / methods / parameters on one level |
+//! | same names per namespace | same (`roundtrip:<level>.names`) | H missing-name patterns × N; S1 every subset of non-source names missing (N=2,3), 3–4 patterns (N=4), on classes, members, parameters independently; F every subset of the 15 entries named / named like the source; O odd names in pairs of siblings (equal target names, tag letters, blanks at the ends, backslashes); T names of 1..141 characters with one multi-byte character |
 //! | same descriptors | same (member keys carry the descriptor) + `KeyMismatch` of `from_quill` (`roundtrip:key-invariant`) | H shapes b, c, d, u (overloads, object/array descriptors with non-ASCII class names); S1 |
-//! | same comments | same (`roundtrip:<level>.comment`) | H comment alphabet (10 texts) in every slot; S2 all texts ≤ L over 6 characters × 5 placements; S1 comments × missing names |
+//! | same comments | same (`roundtrip:<level>.comment`) | H comment alphabet (14 texts) in every slot; S2 all texts ≤ L over 9 characters × 5 placements; S1 comments × missing names; F every subset of the 15 entries commented, each with its own text (a comment that leaks to the next sibling or level is seen); T comments of 1..141 characters and around 8 KiB / 64 KiB on every level |
 //! | reading never merges, loses or re-parents an entry | L1 `judge_text`: accepted ⇒ structure equals the reference reading (`lines:<level>…`), accepted although a line has no parent (`lines:accepted-orphan`) or an entry is stated twice (`lines:accepted-duplicate`); S `file-order:read:…` (a valid file in another line order is read as the same set); L2 `cell:…` | L1 two alphabets (second field/method/parameter so that a child can be attached to the wrong sibling; unknown sections; short rows), L2 |
 //! | the text depends only on the content, never on insertion order | H (3) confluence over *all* histories of a content (`order:text-depends-on-insertion-order`); S1/S3 all 6 arrangements / 6 arrangement families give the same bytes; S `order:text-depends-on-file-order` (content read from a differently ordered file is written as the same bytes) | H: shape d has members whose names and descriptors order in opposite directions and members sharing a descriptor; S1: the same, plus members with equal non-source names, two nameless parameters |
 //! | write(read(write(M))) is byte-identical to write(M) | H (4), S `judge` (`fixpoint:…`) | every state / content of H, S1, S2, S3 |
 //! | observe_at: write_string | H (0), S `judge` (`write_string:differs-from-write_vec`) | every state / content |
+//! | observe_at: read takes any `Read` | E: the set read through every scripted reader equals the set written (`env:read:<reader family>:differs/refused/panic`); an I/O error after a prefix never yields a set that lacks entries (`env:read:failing-reader:error-swallowed`) | E: 4 sets (5 thorough; two with texts of several 8 KiB buffers, one with a line > 8 KiB) × ~50 reader kinds + one boundary at every byte offset (small texts) / on a grid and around every 4 KiB (large texts) |
+//! | anchor: write (what write_vec wraps) takes any `Write` | E: the bytes that arrive are those of write_vec (`env:write:<writer family>:text-depends-on-writer/refused/panic`) | E: the same sets × partial accepts, Interrupted, BufWriters, exact slice, one boundary at every byte offset |
+//! | no panic while refusing | R `lines:panic@…` (and the structure oracles of L1 on every text) | R 24 situations × 676 offending texts with a 1/2/3/4-byte character at every offset ≤ 140 |
 //! | quantifier: 2..4 namespaces | H: every shape × every pattern for N=2,3,4 (quick too); S1 N=2,3,4 | |
 //! | quantifier: arbitrary missing names in non-source namespaces | H 4 patterns (+ all 2^7 masks of shape a, thorough); S1 see "names" | |
 //! | quantifier: nested/inner class names | H `A$B`, `p/C`, `Ü/É$ñ`; S1 `p/A$B` with targets `q/X$Y`, `𝒳/z` | |
@@ -36,7 +55,9 @@
 //! | quantifier: parameters without source names | H shapes a, c, u; S1 (also nameless in every namespace, index 300) | |
 //! | quantifier: any insertion order of the same content | H: all histories (cross-level interleavings too); S1: all permutations per level | |
 //!
-//! Not decided: the top-level `Mappings.javadoc` (the writer emits a line the reader refuses; excluded by the
+//! Not decided: whether `write` reports the error of a writer that fails (recorded as an outcome of E: the BufWriter inside
+//! `write` is dropped without a flush, so an error at the last flush is lost; the statement says nothing about devices
+//! that fail), the top-level `Mappings.javadoc` (the writer emits a line the reader refuses; excluded by the
 //! quantifier's list and documented in DESIGN §2), comments with TAB/CR (outside the quantifier; probed only),
 //! `read_file` (a wrapper, not in observe_at).
 
@@ -44,6 +65,11 @@
 mod sweeps;
 #[path = "c03/lines.rs"]
 mod lines;
+#[path = "c03/extra.rs"]
+mod extra;
+#[allow(dead_code)]
+#[path = "c20/io.rs"]
+mod io;
 
 use std::collections::{BTreeMap, HashMap};
 use std::sync::atomic::{AtomicU64, Ordering};
@@ -647,12 +673,29 @@ fn main() {
 	let line_len_3 = ctx.tier.pick(5, 6);
 	let lines2 = lines::run_lines(ctx, &lines::LINES_2, line_len);
 	let lines3 = lines::run_lines(ctx, &lines::LINES_3, line_len_3);
-	let line_evals = lines2.evaluations + lines3.evaluations;
-	let lines = lines2.merge(lines3);
+	let line_len_odd = ctx.tier.pick(4, 5);
+	let lines_odd = lines::run_lines(ctx, &lines::LINES_ODD, line_len_odd);
+	let odd_lines_accepted = lines_odd.get("both-accept");
+	let line_evals = lines2.evaluations + lines3.evaluations + lines_odd.evaluations;
+	let lines = lines2.merge(lines3).merge(lines_odd);
 	let cell_len = ctx.tier.pick(6, 8);
 	let cells = lines::run_cells(ctx, cell_len);
 	let probes = lines::run_probes(ctx);
 	let t_lines = ctx.elapsed_s();
+
+	// spaces of the second extension pass (c03/extra.rs)
+	let feature_ns: Vec<usize> = ctx.tier.pick(vec![3], vec![2, 3, 4]);
+	let (feature, feature_counts) = extra::feature_sweep(ctx, &feature_ns);
+	let t_feature = ctx.elapsed_s();
+	let (text, text_multibyte, text_big) = extra::text_sweep(ctx, ctx.tier);
+	let refusals = extra::refusal_sweep(ctx);
+	let t_text = ctx.elapsed_s();
+	let odd = extra::odd_sweep(ctx);
+	let wide_sizes: Vec<(usize, usize)> = ctx.tier.pick(vec![(300, 2)], vec![(300, 2), (300, 3), (1000, 4)]);
+	let wide = extra::wide(ctx, &wide_sizes);
+	let t_odd = ctx.elapsed_s();
+	let (env, env_tot) = extra::env_sweep(ctx, ctx.tier);
+	let t_env = ctx.elapsed_s();
 
 	ctx.floor("universes explored", 20, n_universes as u64);
 	ctx.floor("contents reached through more than one insertion order", 100, multi);
@@ -678,14 +721,54 @@ fn main() {
 	ctx.floor("comment cells with a backslash that starts no escape, read", 100, cells.get("cell:lone-backslash-read"));
 	ctx.floor("comment cells well escaped, read", 100, cells.get("cell:well-escaped-read"));
 	ctx.floor("probes outside the domain", 10, probes.evaluations);
+	ctx.floor("line sequences over the odd-value alphabet accepted by both readers", 100, odd_lines_accepted);
+	let masks = (1u64 << extra::FEATURE_BITS) * feature_ns.len() as u64;
+	ctx.floor("feature sweep: masks of present entries judged (children only below present parents)", 1000 * feature_ns.len() as u64, feature_counts[0]);
+	ctx.floor("feature sweep: every mask of commented entries judged", masks, feature_counts[1]);
+	ctx.floor("feature sweep: every mask of named entries judged", masks, feature_counts[2]);
+	ctx.floor("feature sweep: every mask of entries named like their source judged", masks, feature_counts[3]);
+	ctx.floor("feature sweep: round trips judged equal", feature.cases, feature.stats.get("roundtrip-ok"));
+	ctx.floor("text sweep: contents judged", 10_000, text.cases);
+	ctx.floor("text sweep: contents with a multi-byte character in the slot", 7_500, text_multibyte);
+	ctx.floor("text sweep: contents with a line around 8 KiB or 64 KiB", 300, text_big);
+	ctx.floor("text sweep: longest text in bytes", 65_536, text.max_text_len as u64);
+	ctx.floor("text sweep: round trips judged equal", text.cases, text.stats.get("roundtrip-ok"));
+	for (i, sit) in extra::REFUSALS.iter().enumerate() {
+		// 18: /repo does not validate field descriptors (the row is accepted); 23: unknown sections may be skipped or refused
+		if i != 18 && i != 23 {
+			ctx.floor(&format!("refusal sweep: texts refused: {sit}"), 600, refusals.get(&format!("refused: {sit}")));
+		}
+	}
+	ctx.floor("refusal sweep: texts refused with a multi-byte character in the offending text", 10_000, refusals.get("refused with a multi-byte character in the offending text"));
+	ctx.floor("odd values: contents judged", 3_000, odd.cases);
+	ctx.floor("odd values: round trips judged equal", odd.cases, odd.stats.get("roundtrip-ok"));
+	ctx.floor("wide levels: round trips judged equal", wide.cases, wide.stats.get("roundtrip-ok"));
+	ctx.floor("environment: reads through scripted readers", 1_000, env.get("env: reads"));
+	ctx.floor("environment: every read gives the set", env.get("env: reads"), env.get("env: read gives the set"));
+	ctx.floor("environment: requests served short", 10_000, env_tot.short_serves);
+	ctx.floor("environment: requests and offers answered with Interrupted", 1_000, env_tot.interrupts);
+	ctx.floor("environment: reads with the one boundary inside a multi-byte character", 50, env_tot.split_inside_character);
+	ctx.floor("environment: failing readers whose error was reported", 500, env.get("env: failing reader: error reported"));
+	ctx.floor("environment: writes through scripted writers", 500, env.get("env: writes"));
+	ctx.floor("environment: every write delivers the bytes of write_vec", env.get("env: writes"), env.get("env: write delivers the bytes of write_vec"));
+	ctx.floor("environment: offers accepted in part", 1_000, env_tot.short_accepts);
+	ctx.floor("environment: texts larger than 8 KiB", 2, env.get("env: texts larger than 8 KiB"));
 
 	samples.extend(lines.samples.iter().cloned());
 	samples.extend(content.stats.samples.iter().cloned());
 	samples.extend(comment.stats.samples.iter().cloned());
+	for s in [&feature.stats, &text.stats, &odd.stats, &env] {
+		samples.extend(s.samples.iter().take(2).cloned());
+	}
 	distinct_texts.merge(content.stats.distinct.clone());
 	distinct_texts.merge(comment.stats.distinct.clone());
 	distinct_texts.merge(bulk.stats.distinct.clone());
-	let sweep_evals = content.stats.evaluations + comment.stats.evaluations + bulk.stats.evaluations;
+	for s in [&feature.stats, &text.stats, &odd.stats, &wide.stats] {
+		distinct_texts.merge(s.distinct.clone());
+	}
+	let sweep_evals = content.stats.evaluations + comment.stats.evaluations + bulk.stats.evaluations
+		+ feature.stats.evaluations + text.stats.evaluations + odd.stats.evaluations + wide.stats.evaluations + refusals.evaluations
+		+ env.get("env: reads") + env.get("env: reads from a failing reader") + env.get("env: writes") + env.get("env: writes into a writer that fails");
 	let coverage = json!({
 		"states": states,
 		"transitions": transitions,
@@ -710,6 +793,13 @@ fn main() {
 			"line_alphabet": lines::LINES_2.lines,
 			"line_sequence_max_len": line_len,
 			"comment_cells": {"characters": lines::CELL_CHARS.iter().map(|c| c.to_string()).collect::<Vec<_>>(), "max_len": cell_len},
+			"odd_line_alphabet": {"namespaces": 2, "lines": lines::LINES_ODD.lines, "max_len": line_len_odd},
+			"feature_sweep": {"features": extra::FEATURES, "mask_bits": extra::FEATURE_BITS, "namespaces": feature_ns, "insertion_arrangements_per_content": 2, "reference_files_per_content": 1, "contents_per_feature": feature_counts},
+			"text_sweep": {"slots": extra::TEXT_SLOTS, "characters": extra::WIDTH_CHARS.iter().map(|c| c.to_string()).collect::<Vec<_>>(), "ascii_before_and_after": extra::text_grid(), "big_lines": extra::big_text_grid(ctx.tier).len()},
+			"refusal_sweep": {"situations": extra::REFUSALS, "texts_per_situation": extra::text_grid().len() * 4},
+			"odd_values": extra::odd_alphabets(),
+			"wide_sets": wide_sizes.iter().map(|(k, n)| json!({"fields_methods_parameters": k, "namespaces": n})).collect::<Vec<_>>(),
+			"environment_sets": extra::env_contents(ctx.tier).iter().map(|(l, _)| l.clone()).collect::<Vec<_>>(),
 		},
 		"contents": contents,
 		"contents_with_more_than_one_history": multi,
@@ -720,13 +810,20 @@ fn main() {
 			"line_sweep": lines.outcomes,
 			"comment_cells": cells.outcomes,
 			"probes_outside_domain": probes.outcomes,
+			"feature_sweep": feature.stats.outcomes,
+			"text_sweep": text.stats.outcomes,
+			"refusal_sweep": refusals.outcomes,
+			"odd_values": odd.stats.outcomes,
+			"wide": wide.stats.outcomes,
+			"environment": env.outcomes,
 		},
+		"environment": {"requests_served_short": env_tot.short_serves, "interrupted": env_tot.interrupts, "offers_accepted_in_part": env_tot.short_accepts, "single_boundary_inside_a_character": env_tot.split_inside_character},
 		"line_sweep": {"evaluations": line_evals, "outcomes": lines.outcomes, "distinct_accepted_structures": lines.distinct.len()},
 		"content_sweep": {"evaluations": content.stats.evaluations, "reordered_builds": content.reordered_builds, "texts_not_in_key_order": content.texts_not_in_key_order},
 		"comment_sweep": {"evaluations": comment.stats.evaluations, "mixed_non_ascii_and_escape": comment_mixed},
 		"comment_cells": {"evaluations": cells.evaluations, "distinct_comments_read": cells.distinct.len()},
 	});
-	eprintln!("C03 phases (s): histories {:.1}, content {:.1}, comments {:.1}, bulk {:.1}, lines+cells+probes {:.1}", t_hist - t0, t_content - t_hist, t_comment - t_content, t_bulk - t_comment, t_lines - t_bulk);
+	eprintln!("C03 phases (s): histories {:.1}, content {:.1}, comments {:.1}, bulk {:.1}, lines+cells+probes {:.1}, features {:.1}, texts+refusals {:.1}, odd+wide {:.1}, environment {:.1}", t_hist - t0, t_content - t_hist, t_comment - t_content, t_bulk - t_comment, t_lines - t_bulk, t_feature - t_lines, t_text - t_feature, t_odd - t_text, t_env - t_odd);
 	ctx.finish(coverage, &[
 		"names containing TAB or newline are outside the Tiny v2 format and outside the alphabet",
 		"comments containing TAB, CR or NUL are in the alphabets since the writer escapes them (Tiny v2 escapes \\t \\r \\0; repaired in /repo this session)",
@@ -782,6 +879,32 @@ fn replay(ctx: &'static Ctx, path: &std::path::Path) -> ! {
 		}
 	} else if body.starts_with("sweep=bulk") {
 		sweeps::bulk_case(ctx, &mut sweeps::SweepOut::default(), num("classes=") as usize, num("namespaces=") as usize);
+	} else if body.starts_with("sweep=feature") {
+		for _ in 0..2 {
+			if !extra::feature_case(ctx, &mut sweeps::SweepOut::default(), num("namespaces=") as usize, num("feature=") as usize, num("mask=") as u32) {
+				vcore::machinery_fail("replay: the mask asks for a child below an absent parent");
+			}
+		}
+	} else if body.starts_with("sweep=text") {
+		for _ in 0..2 {
+			extra::text_case(ctx, &mut sweeps::SweepOut::default(), num("slot=") as usize, num("k1=") as usize, num("width=") as usize, num("k2=") as usize);
+		}
+	} else if body.starts_with("sweep=odd") {
+		let all = extra::odd_contents();
+		let idx = num("index=") as usize;
+		if idx >= all.len() {
+			vcore::machinery_fail("replay: index outside the odd-value contents");
+		}
+		for _ in 0..2 {
+			extra::odd_case(ctx, &mut sweeps::SweepOut::default(), &all, idx);
+		}
+	} else if body.starts_with("sweep=wide") {
+		extra::wide_case(ctx, &mut sweeps::SweepOut::default(), num("entries=") as usize, num("namespaces=") as usize);
+	} else if body.starts_with("sweep=env") {
+		let all = extra::env_contents(vcore::Tier::Thorough);
+		let idx = num("case=") as usize;
+		let (label, m) = all.get(idx).unwrap_or_else(|| vcore::machinery_fail("replay: unknown environment case"));
+		extra::env_case(ctx, idx, label, m, &mut Stats::new(), &mut extra::EnvTotals::default());
 	} else if body.starts_with("probe=") {
 		lines::run_probes(ctx);
 	} else {
